@@ -1,11 +1,11 @@
 package main
 
 import (
-	"os"
-	"time"
 	"encoding/hex"
 	"fmt"
+	"os"
 	"strings"
+	"time"
 
 	"github.com/mmcloughlin/addchain/acc"
 	"github.com/mmcloughlin/addchain/acc/ast"
